@@ -935,8 +935,9 @@ Theorem union_decodes_exactly_one_J : forall e w x ig pF f top n nullable ms d e
   end.
 Proof.
   intros e w x ig pF f top n nullable ms d es tr L Hd R D.
-  pose proof (stepJ_union_cases e w x ig pF D top n nullable ms d es tr L Hd) as H.
-  assert (ER : R = stepJ e w x ig pF D top (TRef n) d tr) by (apply decJ_unfold).
+  pose proof (stepJ_union_cases e w x ig pF (djmix e w x ig pF f) top n nullable ms d es tr L Hd) as H.
+  change (djmix e w x ig pF f false) with (D false) in H.
+  assert (ER : R = stepJ e w x ig pF (djmix e w x ig pF f) top (TRef n) d tr) by (apply decJ_unfold).
   destruct (live es) as [|[k1 x1] [|[k2 x2] rest]].
   - rewrite ER. exact H.
   - destruct (index_of k1 (map fst ms) 0) as [j|].
@@ -1255,8 +1256,9 @@ End DecJValid.
 Theorem decJ_dvalid : forall e w x ig pF fuel top t d tr v tr',
   decJ e w x ig pF fuel top t d tr = Ok (v, tr') -> dvalid e t v.
 Proof.
-  intros e w x ig pF fuel. induction fuel as [|f IH]; intros top t d tr v tr' H; [discriminate|].
-  rewrite decJ_unfold in H. eapply stepJ_dvalid; [|exact H]. exact IH.
+  intros e w x ig pF fuel. revert x ig. induction fuel as [|f IH]; intros x ig top t d tr v tr' H; [discriminate|].
+  rewrite decJ_unfold in H. eapply stepJ_dvalid; [|exact H].
+  intros [|] t0 d0 tr0 v0 tr0' H0; unfold djmix in H0; eapply IH; exact H0.
 Qed.
 
 (* in particular: a union the JSON decoder accepts has exactly one member set, or none when nullable *)
@@ -1508,7 +1510,7 @@ Theorem decR_dvalid : forall e w x ig pF unesc em lp qr fuel t s v s',
 Proof.
   intros e w x ig pF unesc em lp qr fuel. induction fuel as [|f IH]; intros t s v s' H; [discriminate|].
   rewrite decR_unfold in H. eapply stepR_dvalid; [| |exact H].
-  - intros top t0 d tr v0 tr'. apply decJ_dvalid.
+  - intros [|] t0 d tr v0 tr'; unfold djmix; apply decJ_dvalid.
   - exact IH.
 Qed.
 
